@@ -342,6 +342,7 @@ OPERANDS = [
     # every kind of element behind / in front of every other kind in argument-like sequences
     ('_arglikes', 'a, *b, c'), ('_arglikes', 'a, *b, c, d=1'), ('_arglikes', '*b, c'), ('_arglikes', 'a, *b, c, **d'), ('_arglikes', 'a=1, *b, c'), ('_arglikes', '*a, *b'), ('_arglikes', '**a, b=1'),
     ('arguments', 'a, *b, c, d=1'), ('arguments', 'a, /, *, c'), ('arguments', '*, c, d=1, e'), ('_type_params', 'T: int, U'), ('_type_params', 'T = int, *U'), ('type_param', 'T: (int, str)'),
+    ('expr', 'yield'), ('stmt', 'yield x'), ('expr', 'yield from z'), ('expr', 'await x'), ('stmt', 'await x'),
     ('_withitems', 'a, b as c, d'), ('_aliases', 'a, b as c, d'), ('_decorator_list', '@a(b)(c)\n@d'), ('_comprehensions', 'for a, b in c if d if e for f in g if h'),
 ]
 MODES = ['expr', 'pattern', 'Tuple', 'List', 'Set', 'stmt', 'stmts', 'exec', 'Expr', '_arglikes', '_arglike', 'arguments', 'arguments_lambda', '_withitems', 'withitem', '_aliases', 'alias',
@@ -572,7 +573,8 @@ def stage_matrix(ctx: Ctx, progs):
             if d:
                 report(f'put-coerce|{field}', 'a put that coerces differs from a put of the explicitly converted node', {**rec, 'coercing_put': h1.src, 'explicit_put': h2.src, 'diffs': d})
             elif reparse_diffs(h1):
-                report(f'put-coerce-c01|{field}', 'tree after a coercing put does not re-parse to itself', {**rec, 'coercing_put': h1.src})
+                bare_yield = isinstance(getattr(conv.a, 'elts', [None])[0] if getattr(conv.a, 'elts', None) else None, (ast.Yield, ast.YieldFrom)) or src.startswith('yield')
+                report(f'put-coerce-c01|{field}' + ('|bare-yield' if bare_yield else ''), 'tree after a coercing put does not re-parse to itself', {**rec, 'coercing_put': h1.src})
 
 
 def run(ctx: Ctx):
